@@ -142,9 +142,9 @@ Qed.
 
 (* the search goes on: a single exception view whose body raises PredicateMismatch, then a less specific view *)
 Definition pm_decls : list vdecl :=
-  [mkDecl DExcView (Some 7%N) false true (mkArgs 1%N 0%N [] [] None false 3%N) 0%N (mkBody true (ARaise 1%N) false);
-   mkDecl DExcView None false false (mkArgs 1%N 0%N [] [] None false 4%N) 0%N (mkBody false ARet false);
-   mkDecl DView None false false (mkArgs 1%N 0%N [] [] None false 5%N) 0%N (mkBody false (ARaise 0%N) false)].
+  [mkDecl DExcView (Some 7%N) false true (mkArgs 1%N 0%N [] [] None false 3%N) 0%N (mkBody true (ARaise 1%N) false) None false;
+   mkDecl DExcView None false false (mkArgs 1%N 0%N [] [] None false 4%N) 0%N (mkBody false ARet false) None false;
+   mkDecl DView None false false (mkArgs 1%N 0%N [] [] None false 5%N) 0%N (mkBody false (ARaise 0%N) false) None false].
 Definition pm_nm : named :=
   [(cn_Interface, 0%N); (cn_IRequest, 1%N); (cn_Exception, 6%N); (cn_HTTPNotFound, 8%N); (cn_HTTPForbidden, 9%N);
    (cn_IExceptionResponse, 10%N); (cn_WebobWSGIHTTPException, 11%N)].
@@ -153,7 +153,7 @@ Definition pm_excs : list exc :=
    mkExc 1%N [13; 8; 10; 6; 0]%N [cn_Exception; cn_HTTPNotFound; cn_PredicateMismatch] 404%N].
 Definition pm_W : world :=
   mkWorld (register_all accept_order_default (regs_upto spec_params pred_names pm_nm pm_decls 0%N))
-          (bodies_of spec_params pm_nm pm_decls) pm_excs.
+          (bodies_of spec_params pm_nm pm_decls) pm_excs true false.
 Definition pm_ri : rinfo :=
   mkRI (mkReq rm_get [] [] false None false [47%N] [([], [])] true [] [] [] [1; 0]%N [12; 0]%N [])
        None [1; 0]%N [1; 0]%N false None UPass None.
